@@ -4,6 +4,7 @@ package main
 // bytes, and unicode class predicates as range terms.
 
 import (
+	"regexp"
 	"strconv"
 	"unicode"
 )
@@ -200,4 +201,52 @@ func (e *Exec) runeClassTerm(name string, f func(rune) bool, r *Term) *Term {
 		res = Or(res, c)
 	}
 	return res
+}
+
+var singleClassPlus = regexp.MustCompile(`^\[(\\.|[^\]\\])*\]\+$`)
+
+// regexpFilterSym handles re.ReplaceAllString(s, "") for a string with symbolic bytes when re is a single
+// character class with a '+' quantifier: every byte that belongs to the class is removed.  Symbolic bytes are
+// assumed to be ASCII (obligation); membership is decided by branches.
+func (e *Exec) regexpFilterSym(re *regexp.Regexp, s Value, repl string) Value {
+	if repl != "" || !singleClassPlus.MatchString(re.String()) {
+		unsup("regexp with symbolic string")
+	}
+	var runs []runeRun
+	in := false
+	var start uint32
+	for c := uint32(0); c <= 128; c++ {
+		v := c < 128 && re.MatchString(string(rune(c)))
+		if v && !in {
+			start, in = c, true
+		} else if !v && in {
+			runs = append(runs, runeRun{start, c - 1})
+			in = false
+		}
+	}
+	var out []*Term
+	for _, b := range strBytes(s) {
+		if b.IsConst() {
+			if b.V >= 0x80 {
+				unsup("regexp with symbolic string containing non-ASCII bytes")
+			}
+			if !re.MatchString(string(rune(b.V))) {
+				out = append(out, b)
+			}
+			continue
+		}
+		if _, hi := e.bnd(e.subst(b)); hi >= 0x80 {
+			if e.branch(Cmp(OpULe, BV(8, 0x80), b)) {
+				unsup("regexp with symbolic non-ASCII byte")
+			}
+		}
+		member := tFalse
+		for _, r := range runs {
+			member = Or(member, And(Cmp(OpULe, BV(8, uint64(r.lo)), b), Cmp(OpULe, b, BV(8, uint64(r.hi)))))
+		}
+		if !e.branch(member) {
+			out = append(out, b)
+		}
+	}
+	return mkStr(out)
 }
